@@ -32,7 +32,9 @@ TReduce == /\ Is("Reduce") /\ Adv /\ UNCHANGED eord
            /\ IF Ev.mx \in {"endo", "dual(endo)"} THEN TRUE
               ELSE SemEq(Ev.out, FoldL(Ev.mx, Ev.xs, 1, Empty(Ev.mx)))
 TCase == Is("Case") /\ Adv /\ UNCHANGED eord
-TNext == (TCase \/ TEndo \/ TMonoid \/ TReduce) /\ UNCHANGED <<mvars, tvars4>>
+\* operands and earlier results are values: combining them again changes neither
+TAlias == Is("Alias") /\ Adv /\ UNCHANGED eord /\ SemEq(Ev.xbefore, Ev.xafter) /\ SemEq(Ev.rbefore, Ev.rafter)
+TNext == (TCase \/ TEndo \/ TMonoid \/ TReduce \/ TAlias) /\ UNCHANGED <<mvars, tvars4>>
 TInit == l = 1 /\ eord = 0 /\ vu = 1 /\ va = I(0) /\ vb = I(0) /\ vc = I(0) /\ mx = "sum" /\ ma = I(0) /\ mb = I(0) /\ mc = I(0)
 TSpec == TInit /\ [][TNext]_<<l, eord, mvars, tvars4>>
 HighWater == TLCSet(1, IF TLCGet(1) < l THEN l ELSE TLCGet(1))
